@@ -6,7 +6,7 @@ C08 line-protocol driver. Requests:
       → `<n> <nnz> (i j v)..`  row-major non-zeros of the full block matrix
   reduce   <nf> <nc> <k> w.. <nT> (c e v).. rhs..
       → `<m> <nnz> (i j v).. | rr.. | <m'> <nnz> (i j v).. | frr..`  flux-reduced and fully reduced systems
-  solve <form> <prevPk|none> <nf> <nc> <k> w.. <nT> (c e v).. rhs..
+  solve <form> <prevPk|none> <dscale> <nf> <nc> <k> w.. <nT> (c e v).. rhs..
       → exact solution `x..` or the error class
 -/
 import DarsiaModel.Basic
@@ -50,7 +50,7 @@ def handleReduce (rest : List String) : Option String := do
     let s ← pSystem; let rhs ← P.rep P.rat (s.1 + s.2.1 + 1); P.done; pure (s, rhs) : P _).run rest
   let _ := nc
   let full := Saddle.assembleFull w D k
-  let (red, rr, _) := Saddle.eliminateFlux full rhs.toArray nf
+  let (red, rr, _) := Saddle.eliminateFlux full full rhs.toArray nf
   let tail := match Saddle.eliminateMultiplier red rr k with
     | .error e => e.show
     | .ok (fr, frr) => s!"{showSparse fr} | {showRats frr.toList}"
@@ -59,14 +59,19 @@ def handleReduce (rest : List String) : Option String := do
 def parseForm : String → Option Saddle.Form
   | "full" => some .full | "flux_reduced" => some .fluxReduced | "pressure" => some .pressure | _ => none
 
+/-- `solve <form> <prevPk|none> <dscale> system rhs`: the matrix handed to `linear_solve` has its divergence blocks
+scaled by `dscale` (1 = the matrix the solver assembles itself); the cached blocks always come from the unscaled `D` -/
 def handleSolve : List String → Option String
   | form :: rest => do
     let form ← parseForm form
-    let ((prev, (nf, _, k, w, D), rhs), _) ← (do
+    let ((prev, dscale, (nf, nc, k, w, D), rhs), _) ← (do
       let prev ← P.opt P.rat
-      let s ← pSystem; let rhs ← P.rep P.rat (s.1 + s.2.1 + 1); P.done; pure (prev, s, rhs) : P _).run rest
-    let full := Saddle.assembleFull w D k
-    match Saddle.linearSolve form full rhs.toArray nf k prev with
+      let ds ← P.rat
+      let s ← pSystem; let rhs ← P.rep P.rat (s.1 + s.2.1 + 1); P.done; pure (prev, ds, s, rhs) : P _).run rest
+    let _ := nc
+    let cache := Saddle.assembleFull w D k
+    let full := Saddle.assembleFull w (D.map fun row => row.map (· * dscale)) k
+    match Saddle.linearSolve form cache full rhs.toArray nf k prev with
     | .error e => pure e.show
     | .ok x => pure (showRats x.toList)
   | _ => none
